@@ -486,6 +486,10 @@ def shard_generated(acc, shard, nshards, n_basis, n_hist, nmax):
     engine.hyp_run(acc, "disturbed", check_disturbed, disturbed_cases(), max(30, n_hist), shard)
 
 
+# coverage-guided variants of the structured generators (thorough tier, pv/fuzz/target.py hyp:<name>)
+FUZZ = {"history": ("history", history_cases)}
+
+
 def run(acc, tier):
     if tier == "quick":
         engine.pmap(acc, shard_exhaustive, extra=(3, 2))
@@ -493,3 +497,4 @@ def run(acc, tier):
     else:
         engine.pmap(acc, shard_exhaustive, extra=(4, 2))
         engine.pmap(acc, shard_generated, extra=(600, 800, 8))
+        engine.fuzz(acc, "hyp:history", CHECKS, 3000, max_len=4096)
